@@ -1,11 +1,12 @@
 package rules
 
 import (
-	"os"
 	"fmt"
 	"go/token"
+	"os"
 	"sort"
 	"strings"
+	"wtfverif/checker/internal/bounds"
 
 	"golang.org/x/tools/go/ssa"
 
@@ -16,20 +17,20 @@ import (
 )
 
 const (
-	dbPkg     = load.ModulePath + "/internal/database"
-	srType    = dbPkg + ".SearchResult"
-	histType  = load.ModulePath + "/internal/history.SearchHistory"
-	histMeth  = "(*" + load.ModulePath + "/internal/history.SearchHistory)."
-	validPkg  = load.ModulePath + "/internal/validation"
+	dbPkg    = load.ModulePath + "/internal/database"
+	srType   = dbPkg + ".SearchResult"
+	histType = load.ModulePath + "/internal/history.SearchHistory"
+	histMeth = "(*" + load.ModulePath + "/internal/history.SearchHistory)."
+	validPkg = load.ModulePath + "/internal/validation"
 )
 
 func init() {
 	register(&Rule{
 		Prop: "C17",
 		Explanation: "Static tables and path facts of package cli: (O-1) the cobra command tree and every flag registration are extracted from the SSA of the package initialisers and merged with pflag v1.0.6 / cobra v1.9.1 semantics (re-read from the dependency's source in the module cache) — any name/shorthand collision that makes pflag panic before Run is a violation, and every Flags().GetXxx(\"n\") resolves to a registered flag of that type on every command under which the closure runs; " +
-			"(O-2) between the engine call and the print loops the result slice is only re-sorted stably by descending Score, is bounded by the limit handed to the engine, and every print loop emits on every iteration; (O-3) in the json branch the only output is one Encoder.Encode of a slice built with exactly one append per result; (O-4) every string constant containing ESC is an argument of the colour gate that returns \"\" when the --no-color flag or NO_COLOR is set; (O-5) every path through the engine call records exactly one AddEntry(validated query, len(results)) followed by one Save, paths that never reach the engine record nothing. " +
-			"'Runs for any arguments' and terminal rendering are NOT decided.",
-		NotDecided: []string{"behaviour for arbitrary argv beyond flag-table consistency", "well-formedness of encoding/json output (library)", "terminal rendering"},
+			"(O-2) between the engine call and the print loops the result slice is only re-sorted stably by descending Score, is bounded by the limit handed to the engine, and every print loop emits on every iteration; (O-3) in the json branch the only output is one Encoder.Encode of a slice built with exactly one append per result; (O-4) every string constant containing ESC is an argument of the colour gate that returns \"\" when the --no-color flag or NO_COLOR is set; (O-5) every path through the engine call records exactly one AddEntry(validated query, len(results)) followed by one Save, paths that never reach the engine record nothing; (O-6) every implicit run-time check (index, slice bound, make size, integer division, single-result type assertion) in the code reachable from a command's Run function and outside the engine scope that C10 decides is proven safe for all arguments, with len(args) bounded below by the command's cobra Args validator (cobra's execute is re-verified to call Run only after ValidateArgs succeeded). " +
+			"Nil dereferences, explicit exits in the command layer and terminal rendering are NOT decided.",
+		NotDecided:  []string{"nil dereferences and deliberate os.Exit/log.Fatal in the command layer", "well-formedness of encoding/json output (library)", "terminal rendering"},
 		Assumptions: []string{"cobra v1.9.1 / pflag v1.0.6 merge semantics as modelled in tables.Merge (AddFlagSet skips same-name flags, AddFlag panics on a reused shorthand, InitDefaultHelpFlag adds help/h)"},
 		Run:         runC17,
 	})
@@ -200,6 +201,96 @@ func runC17(c *Ctx) {
 	eng, _ := c01Engine(c)
 	c01Print(c, eng, "O-2")
 	c17Colour(c, run)
+	c17Implicit(c, t)
+}
+
+// c17Implicit: O-6. Every implicit run-time check in the code that runs
+// under a command of the tree and is not already in C10's scope (the engine)
+// is proven safe by the same prover.
+func c17Implicit(c *Ctx, t *tables.Tree) {
+	r := c.R
+	r.Rule("O-6", "no implicit run-time check can fail in the command layer: every index, slice bound, make size, integer division and single-result type assertion reachable from a command's Run function and outside the engine scope decided by C10 is proven safe for all arguments (same prover as C10 O-6)")
+	var roots []*ssa.Function
+	var names []string
+	for n := range t.Cmds {
+		names = append(names, n)
+	}
+	sort.Strings(names)
+	for _, n := range names {
+		if cmd := t.Cmds[n]; cmd.Run != nil {
+			roots = append(roots, cmd.Run)
+		}
+	}
+	if mainFn := c.P.Func("cmd/wtf", "", "main"); mainFn != nil {
+		roots = append(roots, mainFn)
+	}
+	engine := map[*ssa.Function]bool{}
+	for _, fn := range reachClosure(c, c10Roots(c)) {
+		engine[fn] = true
+	}
+	scope := reachClosure(c, roots)
+	n := 0
+	for _, fn := range scope {
+		if !engine[fn] && fn.Synthetic == "" {
+			n++
+		}
+	}
+	r.Floor("O-6", "command-layer functions outside the engine scope", n, 40)
+	// cobra validates the positional-argument count before Run
+	// (re-verified on the dependency below): len(args) >= the declared minimum
+	argsLo := map[*ssa.Parameter]int64{}
+	for _, n := range names {
+		cmd := t.Cmds[n]
+		if cmd.Run != nil && cmd.ArgsSet && len(cmd.Run.Params) == 2 {
+			argsLo[cmd.Run.Params[1]] = int64(cmd.ArgsLo)
+		}
+	}
+	contract := c17ArgsContract(c)
+	c10ImplicitChecks(c, "O-6", append(roots, c10Roots(c)...), scope, engine, func(f *bounds.Fn, x ssa.Value) (int64, bool) {
+		if p, ok := x.(*ssa.Parameter); ok && contract {
+			if lo, ok := argsLo[p]; ok {
+				return lo, true
+			}
+		}
+		return 0, false
+	})
+}
+
+// c17ArgsContract re-verifies on cobra's SSA that (*Command).execute calls
+// Run/RunE only after ValidateArgs returned nil.
+func c17ArgsContract(c *Ctx) bool {
+	r := c.R
+	ex := c.P.DepFunc("github.com/spf13/cobra", "Command", "execute")
+	if ex == nil {
+		r.Unknown("O-6", "dep:cobra.(*Command).execute", "", "dependency function not found")
+		return false
+	}
+	var validate *ssa.Call
+	var runs []*ssa.Call
+	ssau.ForEachInstr(ex, false, func(in ssa.Instruction) {
+		call, ok := in.(*ssa.Call)
+		if !ok {
+			return
+		}
+		if strings.HasSuffix(ssau.CallName(call), "cobra.Command).ValidateArgs") {
+			validate = call
+		}
+		if u, ok := call.Common().Value.(*ssa.UnOp); ok {
+			if fa, ok := u.X.(*ssa.FieldAddr); ok && (ssau.FieldName(fa) == "Run" || ssau.FieldName(fa) == "RunE") {
+				runs = append(runs, call)
+			}
+		}
+	})
+	ok := validate != nil && len(runs) >= 1
+	if ok {
+		succ, _ := nilTests(validate)
+		for _, rc := range runs {
+			if len(succ) == 0 || ssau.ReachableAvoidingEdges(ex, rc.Block(), succ) {
+				ok = false
+			}
+		}
+	}
+	return r.Check(ok, "O-6", "dep:cobra.(*Command).execute#validates-args-before-run", c.P.Pos(ex.Pos()), fmt.Sprintf("%d Run/RunE calls, all behind ValidateArgs == nil", len(runs)), "cobra no longer validates the positional arguments before calling Run: args[i] in a Run function is unguarded")
 }
 
 // c17DepContract re-verifies on the dependency's SSA the two facts the merge
